@@ -5,11 +5,13 @@ import re
 
 ID = "C19"
 META = {
-    "bounds": "storage model derived from the MIR (static behind LocalKey::with with a `&/*tls*/` accessor = one lazily initialised cell per thread); "
-              "inductive step: from EVERY abstract pre-state of 3 threads (cell uninitialised or holding any of the 8 modes: 9^3 states) every action of every "
-              "thread (set_default(m) for the 8 modes, default(), a rounding operation with mode None) is executed on the real function bodies and must "
-              "preserve 'cell[t] = last mode set by t, HalfEven if none' (covers histories of any length); plus schedules of 6 (quick) / 8 (thorough) "
-              "steps replayed natively on real threads; round_quot(.., None) equals round_quot(.., Some(default())) for all quotients/remainders/divisors",
+    "bounds": "storage model derived from the MIR (every thread_local! key behind LocalKey::with - lazy or const initialiser, Cell or RefCell content - is one cell per "
+              "thread; statics with atomics are one cell shared by all threads); step argument over the breadth-first closure of the thread-local states one thread "
+              "can reach by its own set_default(m) / default() calls from 'nothing initialised', the shared statics ranging over their whole domain at every step, with the "
+              "ghost 'mode last set by this thread': every action returns, default() returns the ghost's mode (HalfEven if none), the other two threads' cells are "
+              "untouched (covers histories of any length and any interleaving with other threads' actions); in every reached state every fpdec-core function with an "
+              "Option<RoundingMode> parameter behaves with None exactly as with Some(ghost's mode), for all other arguments (power-of-ten shifts: quick {0,1,19,38}, "
+              "thorough all 39); every public rounding call site passes None; schedules of 6 (quick) / 8 (thorough) steps replayed natively on real threads",
     "outside_claim": ["std's thread_local! implementation (each thread gets its own lazily initialised cell): environment contract",
                       "true parallel data races (interleavings are sequentially consistent here)", "more than 3 threads (symmetric)"],
     "assumptions": ["builtin models listed in coverage.builtin_models"],
@@ -77,6 +79,7 @@ def shared_statics(prog):
 
 
 def mk_state(prog, cells, thread, shared=()):
+    """state with the main rounding-mode cell of each of 3 threads given as a mode index (UNINIT = no cell yet); used by the schedule search"""
     st = State()
     name = cell_key(prog)
     for t, v in enumerate(cells):
@@ -100,6 +103,85 @@ def read_cells(st, name):
     return out
 
 
+def local_of(st, t):
+    """all thread-local cells of thread t: {static name: value}"""
+    return {k[1]: v for k, v in st.heap.items() if isinstance(k, tuple) and len(k) == 3 and k[0] == "tlcell" and k[2] == t}
+
+
+def lsig(local):
+    return tuple(sorted((n, repr(sig(v))) for n, v in local.items()))
+
+
+def install(st, local, t):
+    for n, v in local.items():
+        st.heap[("tlcell", n, t)] = v
+
+
+def state_for(prog, local, t, shared, others=None):
+    """thread t has the thread-local cells `local`; the other two threads hold `others` (default: a copy of `local`) so that an
+    action of t that touches another thread's storage is noticed"""
+    st = State()
+    for u in range(3):
+        install(st, local if (u == t or others is None) else others, u)
+    for (sname, val) in shared:
+        if val is not None:
+            st.heap[("static", sname)] = val
+    st.tags["thread"] = t
+    return st
+
+
+def eff(ghost):
+    return 5 if ghost is None else ghost      # RoundHalfEven until the thread sets a mode
+
+
+def reachable(ctx, prog, t, f_set, f_get, shared_vals, res=None, limit=400):
+    """breadth-first closure of the thread-local states of thread t under its own actions set_default(m) / default(), from 'nothing
+    initialised'; the shared statics range over their whole domain at every step (another thread may have changed them).  Each state
+    carries the ghost value 'mode last set by this thread'.  Returns [(local, ghost, path)] and, through `res`, the step obligations:
+    every action returns normally, default() returns the ghost's mode, no action changes another thread's cells."""
+    start = ({}, None)
+    seen = {(lsig({}), None): ({}, None, [])}
+    frontier = [start + ([],)]
+    bad = []
+    n_exec = 0
+    while frontier:
+        nxt = []
+        for local, ghost, path in frontier:
+            for shared in shared_vals:
+                for act in list(range(8)) + ["g"]:
+                    st = state_for(prog, local, t, shared)
+                    before_others = [lsig(local_of(st, u)) for u in range(3) if u != t]
+                    ex = new_executor(ctx, prog)
+                    if act == "g":
+                        outs = ex.explore(start_state(f_get, [], None, st))
+                    else:
+                        outs = ex.explore(start_state(f_set, [EnumV("RoundingMode", act)], None, st))
+                    n_exec += 1
+                    name = "step|t=%d|local=%s|ghost=%s|shared=%s|%s" % (t, dict(lsig(local)), ghost, dict(shared), "get" if act == "g" else "set(%d)" % act)
+                    ok = len(outs) == 1 and outs[0].kind == "return"
+                    if ok and act == "g":
+                        ok = isinstance(outs[0].value, EnumV) and outs[0].value.variant == eff(ghost)
+                    if ok:
+                        after_others = [lsig(local_of(outs[0].state, u)) for u in range(3) if u != t]
+                        ok = after_others == before_others
+                    if res is not None:
+                        res.d["paths"] += len(outs)
+                        res.d["fns"].update(ex.encoded_fns)
+                        _count(res, name, ok, {"path": path, "thread": t, "action": "g" if act == "g" else "s%d" % act, "shared": [[n, v] for n, v in shared]}, False)
+                    if not ok or len(outs) != 1 or outs[0].kind != "return":
+                        continue
+                    nl = local_of(outs[0].state, t)
+                    ng = ghost if act == "g" else act
+                    key = (lsig(nl), ng)
+                    if key not in seen:
+                        seen[key] = (nl, ng, path + ["%d%s" % (t, "g" if act == "g" else "s%d" % act)])
+                        nxt.append(seen[key])
+                        if len(seen) > limit:
+                            raise Unsupported("more than %d reachable thread-local states" % limit)
+        frontier = nxt
+    return list(seen.values()), n_exec
+
+
 def run_case(ctx, case):
     prog = ctx.program("dev")
     res = Res(case["id"])
@@ -111,38 +193,11 @@ def run_case(ctx, case):
     f_set, f_get = f_set[0], f_get[0]
     if kind == "step":
         t = case["thread"]
-        eff = lambda v: 5 if v == UNINIT else v       # effective mode of a thread
-        n = 0
         statics = shared_statics(prog)
         shared_vals = list(itertools.product(*[[(n, v) for v in dom] for n, dom in statics])) if statics else [()]
-        for cells, shared in itertools.product(itertools.product(range(9), repeat=3), shared_vals):
-            # action set(m)
-            for m in range(8):
-                st, name = mk_state(prog, cells, t, shared)
-                ex = new_executor(ctx, prog)
-                outs = ex.explore(start_state(f_set, [EnumV("RoundingMode", m)], None, st))
-                res.d["paths"] += len(outs)
-                ok = len(outs) == 1 and outs[0].kind == "return"
-                if ok:
-                    after = read_cells(outs[0].state, name)
-                    want = list(cells)
-                    want[t] = m
-                    ok = after == want
-                _count(res, "step|t=%d|cells=%s|set(%d)" % (t, cells, m), ok, {"cells": list(cells), "thread": t, "action": "s%d" % m}, n < 2)
-                n += 1
-            # action get
-            st, name = mk_state(prog, cells, t, shared)
-            ex = new_executor(ctx, prog)
-            outs = ex.explore(start_state(f_get, [], None, st))
-            res.d["paths"] += len(outs)
-            ok = len(outs) == 1 and outs[0].kind == "return" and outs[0].value.variant == eff(cells[t])
-            if ok:
-                after = read_cells(outs[0].state, name)
-                # reading may initialise the reader's own cell (to HalfEven) but must not touch the others
-                ok = all(after[k] == cells[k] for k in range(3) if k != t) and eff(after[t]) == eff(cells[t])
-            _count(res, "step|t=%d|cells=%s|get" % (t, cells), ok, {"cells": list(cells), "thread": t, "action": "g"}, False)
-        res.d["fns"].update(ex.encoded_fns)
-        res.sample({"vc": case["id"], "abstract_pre_states": 729, "actions_per_state": 9})
+        states, n_exec = reachable(ctx, prog, t, f_set, f_get, shared_vals, res)
+        res.sample({"vc": case["id"], "reachable_thread_local_states": len(states), "executions": n_exec,
+                    "thread_local_cells": sorted({n for l, _, _ in states for n in l}), "shared_statics": [n for n, _ in statics]})
         res.d["exhaustive_step"] = True
         return res.done()
     if kind == "rq":
@@ -157,14 +212,15 @@ def run_case(ctx, case):
         ptys = [norm(t) for _, t in rq.params]
         small = [i for i, t in enumerate(ptys) if t == "u8"]
         n_struct = n_solver = 0
-        for m, shared, kval in itertools.product(range(8), shared_vals, ks if small else [None]):
-            for cells_t in (UNINIT, m):
-                if cells_t == UNINIT and m != 5:
-                    continue
+        states, _ = reachable(ctx, prog, 0, f_set, f_get, shared_vals)
+        for (local, ghost, path), shared, kval in itertools.product(states, shared_vals, ks if small else [None]):
+            m = eff(ghost)
+            cells_t = lsig(local)
+            if True:
 
                 def setup():
                     T._fresh[0] = 1000
-                    st, name = mk_state(prog, (cells_t, (m + 1) % 8, (m + 3) % 8), 0, shared)
+                    st = state_for(prog, local, 0, shared, others={})
                     args, inputs = [], {}
                     for i, t in enumerate(ptys):
                         if t == "Option<RoundingMode>":
@@ -182,8 +238,8 @@ def run_case(ctx, case):
                 mi = ptys.index("Option<RoundingMode>")
                 none_v = EnumV("Option", 0)
                 some_v = EnumV("Option", 1, (EnumV("RoundingMode", m),))
-                info = {"kind": "rq", "mode": m, "cell0": cells_t, "shared": [[n, v] for n, v in shared], "fn": rq.name.split("::")[-1]}
-                tag = "rq|%s|k=%s|mode=%d|init=%s" % (rq.name.split("::")[-1], kval, m, cells_t != UNINIT)
+                info = {"kind": "rq", "mode": m, "path": path, "shared": [[n, v] for n, v in shared], "fn": rq.name.split("::")[-1]}
+                tag = "rq|%s|k=%s|mode=%d|local=%s|shared=%s" % (rq.name.split("::")[-1], kval, m, dict(cells_t), dict(shared))
                 # (1) structural identity: both calls executed from identical symbolic states with identical fresh-name counters; if the
                 # mode is resolved to the same concrete value, every path condition and result is the same term
                 st_a, args_a, inputs = setup()
@@ -326,74 +382,69 @@ def predict(sched):
     return "SCHED " + " ".join(out)
 
 
+def simulate(ctx, prog, f_set, f_get, actions):
+    """run a schedule of set/get actions in the MIR-derived storage model; returns the final state or None"""
+    st = State()
+    for a in actions:
+        t, act = int(a[0]), a[1:]
+        st.tags["thread"] = t
+        st.frames = []
+        ex = new_executor(ctx, prog)
+        if act == "g":
+            outs = ex.explore(start_state(f_get, [], None, st))
+        else:
+            outs = ex.explore(start_state(f_set, [EnumV("RoundingMode", int(act[1:]))], None, st))
+        if len(outs) != 1 or outs[0].kind != "return":
+            return None
+        st = outs[0].state
+        st.pc, st.frames = [], []
+    return st
+
+
+def find_schedule(ctx, t, path, shared_target):
+    """a schedule on real threads that brings thread t through `path` with the shared statics at `shared_target` afterwards: the
+    other thread's set_default calls (at most two, before or after the path) are searched in the model"""
+    prog = ctx.program("dev")
+    f_set = [f for f in prog.by_last.get("set_default", []) if [norm(p[1]) for p in f.params] == ["RoundingMode"]][0]
+    f_get = [f for f in prog.by_last.get("default", []) if not f.params and norm(f.ret) == "RoundingMode"][0]
+    statics = shared_statics(prog)
+    o = (t + 1) % 3
+    one = [["%ds%d" % (o, m)] for m in range(8)]
+    two = [a + b for a in one for b in one]
+    cands = [[]] + one + two
+    for pre in cands:
+        for post in ([[]] + one if pre == [] or len(pre) == 1 else [[]]):
+            sched = pre + list(path) + post
+            st = simulate(ctx, prog, f_set, f_get, sched)
+            if st is None:
+                continue
+            got = dict(read_shared(st, statics))
+            if all(got.get(n) == v or (got.get(n) is None and v in (False, None)) for n, v in shared_target.items()):
+                return sched
+    return None
+
+
 def replay(ctx, native, v):
     info = v["info"]
-    if info.get("kind") == "step":
-        # build a schedule that reaches the abstract pre-state, then performs the action
-        sched = []
-        for t, c in enumerate(info["cells"]):
-            if c != UNINIT:
-                sched.append("%ds%d" % (t, c))
-        sched.append("%d%s" % (info["thread"], info["action"]))
-        for t in range(3):
-            sched.append("%dg" % t)
-        line = "5 sched " + " ".join(sched)
-        obs = native["dev"].ask(line)
-        exp = predict(sched)
-        return {"reproduced": obs != exp, "line": line, "observed": obs, "expected": exp, "profile": "dev"}
     if info.get("kind") == "callsite":
         return {"reproduced": True, "line": "(structural) " + info["fn"], "observed": info["call"], "expected": "mode argument Option::None"}
-    if info.get("kind") == "rq":
-        # the abstract pre-state (thread 0's cell, shared statics) must be reachable: search a schedule in the model, then
-        # run it on real threads followed by rounding operations on thread 0 and compare with the per-thread prediction
-        sched = find_schedule(ctx, info["cell0"], {n: v for n, v in info["shared"]})
+    if info.get("kind") in ("step", "rq"):
+        # the pre-state (thread-local state reached by `path`, shared statics) must be reachable on real threads: search the other
+        # thread's part of the schedule in the model, then run it natively, followed by the action / rounding operations, and compare
+        # with the per-thread prediction of the property
+        t = info.get("thread", 0)
+        sched = find_schedule(ctx, t, info.get("path", []), {n: v_ for n, v_ in info.get("shared", [])})
         if sched is None:
-            return {"reproduced": False, "line": "", "observed": "abstract pre-state not reachable within 3 steps: invariant too weak, not a finding", "expected": ""}
-        sched = sched + ["0r15", "0r25", "0r-15", "0r11", "0r-25", "0r5", "0w15", "0w-15", "0w5", "0w11", "0w-5", "0v3", "0v-3", "0v5", "0v7", "0v1"]
+            return {"reproduced": False, "line": "", "observed": "pre-state not reachable by a schedule of the searched shape (over-approximated shared statics): not a finding", "expected": ""}
+        if info["kind"] == "step":
+            sched = sched + ["%d%s" % (t, info["action"])] + ["%dg" % u for u in range(3)] + ["%dr15" % t, "%dr25" % t]
+        else:
+            sched = sched + ["%d%s" % (t, a) for a in ("g", "r15", "r25", "r-15", "r11", "r-25", "r5", "w15", "w-15", "w5", "w11", "w-5", "v3", "v-3", "v5", "v7", "v1")]
         line = "5 sched " + " ".join(sched)
         obs = native["dev"].ask(line)
         exp = predict(sched)
         return {"reproduced": obs != exp, "line": line, "observed": obs, "expected": exp, "profile": "dev"}
     return {"reproduced": False, "line": "", "observed": "?", "expected": ""}
-
-
-def find_schedule(ctx, cell0, shared_target, depth=3):
-    """breadth-first search over the MIR-derived model: a sequence of set_default calls reaching an abstract state with the
-    given cell of thread 0 and the given values of the shared statics"""
-    prog = ctx.program("dev")
-    f_set = [f for f in prog.by_last.get("set_default", []) if [norm(p[1]) for p in f.params] == ["RoundingMode"]][0]
-    statics = shared_statics(prog)
-    init_shared = []
-    for n, dom in statics:
-        init_shared.append((n, None))
-    start = ((UNINIT, UNINIT, UNINIT), tuple(init_shared))
-    frontier = [(start, [])]
-    seen = {start}
-
-    def hit(state):
-        cells, shared = state
-        c_ok = (cells[0] == cell0) or (cell0 == UNINIT and cells[0] == UNINIT)
-        s_ok = all(dict(shared).get(n) == v or (dict(shared).get(n) is None and v is False) for n, v in shared_target.items())
-        return c_ok and s_ok
-    for _ in range(depth + 1):
-        nxt = []
-        for state, path in frontier:
-            if hit(state):
-                return path
-            cells, shared = state
-            for t in range(3):
-                for m in range(8):
-                    st, name = mk_state(prog, cells, t, tuple((n, v) for n, v in shared if v is not None))
-                    ex = new_executor(ctx, prog)
-                    outs = ex.explore(start_state(f_set, [EnumV("RoundingMode", m)], None, st))
-                    if len(outs) != 1 or outs[0].kind != "return":
-                        continue
-                    ns = (tuple(read_cells(outs[0].state, name)), read_shared(outs[0].state, statics))
-                    if ns not in seen:
-                        seen.add(ns)
-                        nxt.append((ns, path + ["%ds%d" % (t, m)]))
-        frontier = nxt
-    return None
 
 
 def confirm_known(ctx, native, ent):
